@@ -14,5 +14,9 @@ Definition run_spec (c:case) : list Z :=
            Ok [ten_of_line ((N + L 0%nat - 1)/2) (pywt_dwt ZOps (geti ip 0) (L 0%nat) N (f 0%nat) (line_of (x 0%nat)))]
   | 102 => let N := tW (x 0%nat) in
            Ok [ten_of_line (even_len N / 2) (pywt_dwt_per ZOps (L 0%nat) N (f 0%nat) (line_of (x 0%nat)))]
+  | 103 => let n := tW (x 0%nat) in
+           Ok [ten_of_line (2*n - L 0%nat + 2) (syn ZOps (L 0%nat) n (f 0%nat) (f 1%nat) (line_of (x 0%nat)) (line_of (x 1%nat)))]
+  | 104 => let n := tW (x 0%nat) in
+           Ok [ten_of_line (2*n) (syn_per ZOps (L 0%nat) n (f 0%nat) (f 1%nat) (line_of (x 0%nat)) (line_of (x 1%nat)))]
   | _ => Err 99
   end.
